@@ -178,6 +178,16 @@ func (its *WiredDatatype) checkOptionAndError(ppp *model.PushPullPack) errors.Or
 }
 
 func (its *WiredDatatype) excludeDuplicatedOperations(ppp *model.PushPullPack) {
+	// the operations of this replica itself come back with a pull when an earlier response was lost (the retry pulls
+	// from the old checkpoint, and by then they are in the log, possibly behind operations of other replicas): they
+	// were applied when they were issued, are told by their origin, and are not counted below.
+	foreign := make([]*model.Operation, 0, len(ppp.Operations))
+	for _, op := range ppp.Operations {
+		if op.GetID().GetCUID() != its.opID.GetCUID() {
+			foreign = append(foreign, op)
+		}
+	}
+	ppp.Operations = foreign
 	pulled := its.calculatePullingOperations(ppp.CheckPoint)
 	if pulled < 0 {
 		// a stale response (its checkpoint is behind the current one): everything it carries was already received
